@@ -188,7 +188,7 @@ def new_state(ctx):
 # ----------------------------------------------------------------------------------------------
 
 def corr(ctx):
-    n = ctx.budget(30, 240)
+    n = ctx.budget(36, 300)
     hists = [copy.deepcopy(H.WITNESS_LATE), copy.deepcopy(H.WITNESS_TWICE)]
     for i in range(n):
         hists.append(H.gen_history(ctx.rng, ctx.rng.randint(6, 22), unsafe=(i % 3 == 0)))
@@ -212,7 +212,7 @@ def corr(ctx):
 
 def oracle(ctx, n=None, seed_shift=0):
     state = new_state(ctx)
-    n = n if n is not None else ctx.budget(20, 200)
+    n = n if n is not None else ctx.budget(24, 240)
     # the two minimal triggers of the known defect are re-verified on every run
     fixed = [copy.deepcopy(H.WITNESS_LATE), copy.deepcopy(H.WITNESS_TWICE)] if seed_shift == 0 else []
     hists = list(fixed)
